@@ -66,6 +66,9 @@ def _run_one(mod, seed: int, tier: str, scenario: dict | None = None) -> dict:
         res = mod.execute(scenario, seed)
         res.setdefault("violations", [])
         res.setdefault("stats", {})
+        if res["violations"] and res.get("scenario_patch"):
+            # e.g. the recorded choice stream of a failing schedule: the replay file pins it, the shrinker minimises it
+            scenario = dict(scenario, **res["scenario_patch"])
         res["scenario"] = scenario if res["violations"] or res.get("keep_scenario") else None
         res["seed"] = seed
         return res
@@ -252,7 +255,7 @@ def shrink(prop: str, scenario: dict, seed: int, target: tuple, budget_s: float 
                 break
             res = replay_scenario(prop, cand, seed, timeout=60.0)
             if any(_vkey(v) == target for v in res.get("violations", [])):
-                cur = cand
+                cur = res.get("scenario") or cand      # includes a scenario_patch (e.g. the recorded choice stream)
                 improved = True
                 break
     return cur
